@@ -49,6 +49,18 @@ fn start_contract<const L: usize>()
     }
 }
 
+// K.tracker.event.prepare: `prepare` ALWAYS appends - also when an identical entry is already parked (restatement of the Verus-proved `prepare`).
+//# id=K.tracker.event.prepare.L2 props=C03,C12 strength=complete shape="parked list L=2, all contents; new entry symbolic (may equal a parked one)" tier=quick fns=EventAccessTracker::prepare
+#[kani::proof] #[kani::unwind(4)] fn k_tracker_event_prepare_l2() {
+    let a: Elem = (any_sys(), any_entity());
+    let b: Elem = (any_sys(), any_entity());
+    let n: Elem = (any_sys(), any_entity());
+    let mut t = EventAccessTracker{ currently_reacting: kani::any(), data_entity: any_entity(), prepared: vec![a, b] };
+    t.prepare(n.0, n.1);
+    assert!(t.prepared.len() == 3, "EventAccessTracker::prepare: the entry is appended even if an identical one is parked");
+    assert!(same(&t.prepared[0], &a) && same(&t.prepared[1], &b) && same(&t.prepared[2], &n), "EventAccessTracker::prepare: appended at the end, parked entries untouched");
+}
+
 //# id=K.tracker.event.start.L0 props=C03,C12 strength=complete shape="parked list L=0" tier=quick fns=EventAccessTracker::start
 #[kani::proof] #[kani::unwind(2)] fn k_tracker_event_start_l0() { start_contract::<0>(); }
 //# id=K.tracker.event.start.L1 props=C03,C12 strength=complete shape="parked list L=1, all contents" tier=quick fns=EventAccessTracker::start
